@@ -211,8 +211,15 @@ class Pool:
             self.close()
             raise WorkerDied(f"workers of configuration {config.get('name')} disagree about it: {sorted(hellos)}")
         self.hello = self.workers[0].hello
+        self._seen: List[List[int]] = [[] for _ in self.workers]
+        self.last_plan: Dict[str, Any] = {}
+        self.plans: List[Dict[str, Any]] = []
 
     def map(self, cases: Sequence[Any], batch: Optional[int] = None) -> List[Any]:
+        """Answers in case order.  Batches are assigned to the workers statically
+        (batch k goes to worker k mod n), so the sequence of cases every worker
+        process sees - its *history* - is a function of the case list and the
+        number of workers, not of thread timing.  ``history_before(i)`` gives it back."""
         cases = list(cases)
         if not cases:
             return []
@@ -221,24 +228,23 @@ class Pool:
             batch = max(1, min(500, -(-len(cases) // (nw * 4))))
         starts = list(range(0, len(cases), batch))
         out: List[Any] = [None] * len(cases)
-        nxt = [0]
-        lock = threading.Lock()
         errs: List[BaseException] = []
+        self.last_plan = {"batch": batch, "workers": nw, "n": len(cases), "offset": [len(h) for h in self._seen]}
+        self.plans.append(self.last_plan)
+        for wi in range(nw):
+            self._seen[wi].extend(i for k, s in enumerate(starts) if k % nw == wi for i in range(s, min(s + batch, len(cases))))
 
-        def drive(w: Worker):
-            while not errs:
-                with lock:
-                    if nxt[0] >= len(starts):
-                        return
-                    s = starts[nxt[0]]
-                    nxt[0] += 1
+        def drive(wi: int, w: Worker):
+            for k, s in enumerate(starts):
+                if k % nw != wi or errs:
+                    continue
                 try:
                     out[s:s + batch] = w.ask(cases[s:s + batch])
                 except BaseException as e:  # noqa: BLE001
                     errs.append(e)
                     return
 
-        ts = [threading.Thread(target=drive, args=(w,)) for w in self.workers]
+        ts = [threading.Thread(target=drive, args=(wi, w)) for wi, w in enumerate(self.workers)]
         for t in ts:
             t.start()
         for t in ts:
@@ -246,6 +252,16 @@ class Pool:
         if errs:
             raise errs[0]
         return out
+
+    def history_before(self, i: int, call: int = -1) -> List[int]:
+        """Indices (into the case list of that map call) of the cases the worker that
+        answered case i had answered before it during that call, in order."""
+        plan = self.plans[call]
+        k = i // plan["batch"]
+        wi = k % plan["workers"]
+        nxt = self.plans[call + 1]["offset"][wi] if call != -1 and call + 1 < len(self.plans) else None
+        seq = self._seen[wi][plan["offset"][wi]:nxt]
+        return seq[:seq.index(i)]
 
     def close(self):
         for w in self.workers:
@@ -316,7 +332,43 @@ def audit(config: Dict[str, Any], handler_ref: str, cases: Sequence[Any], answer
     with Pool(config, handler_ref, 1) as pool:
         again = pool.map([cases[i] for i in idx], batch=200)
     bad = [i for i, a in zip(idx, again) if line(a) != line(answers[i])]
-    return {"reasked": len(idx), "mismatches": len(bad), "first_mismatch_index": bad[0] if bad else None}
+    return {"reasked": len(idx), "mismatches": len(bad), "first_mismatch_index": bad[0] if bad else None,
+            "mismatch_indices": bad, "order": idx, "again": {i: a for i, a in zip(idx, again) if i in set(bad)}}
+
+
+def fresh_sequence(config: Dict[str, Any], handler_ref: str, cases: Sequence[Any]) -> List[Any]:
+    """Answers of ONE brand-new worker process that is given exactly this sequence."""
+    with Pool(config, handler_ref, 1) as pool:
+        return pool.map(list(cases), batch=max(1, len(cases)))
+
+
+def fresh_sequences(config: Dict[str, Any], handler_ref: str, seqs: Sequence[Sequence[Any]], parallel: int = 8) -> List[List[Any]]:
+    """fresh_sequence for many sequences, a bounded number of processes at a time."""
+    out: List[Any] = [None] * len(seqs)
+    errs: List[BaseException] = []
+    nxt = [0]
+    lock = threading.Lock()
+
+    def run():
+        while not errs:
+            with lock:
+                i = nxt[0]
+                nxt[0] += 1
+            if i >= len(seqs):
+                return
+            try:
+                out[i] = fresh_sequence(config, handler_ref, seqs[i])
+            except BaseException as e:  # noqa: BLE001
+                errs.append(e)
+
+    ts = [threading.Thread(target=run) for _ in range(max(1, min(parallel, len(seqs))))]
+    for t in ts:
+        t.start()
+    for t in ts:
+        t.join()
+    if errs:
+        raise errs[0]
+    return out
 
 
 # ---------------------------------------------------------------------------
